@@ -402,6 +402,246 @@ theorem armsSpec_accepts_iff (cfg : Cfg) (cache : List (CKey × CVal)) (sel : Bo
       · intro h; cases h
       · intro ⟨h1, h2, _⟩; exact absurd ⟨h1, h2⟩ hw
 
+/-! ### the second HTLC layout (keys committed by hash) -/
+
+/-- outcome of the second HTLC layout (keys committed by their SHAKE-256 hashes): `hx` is the
+    hash of the supplied preimage item, `key` the public key the witness supplies -/
+def htlc2Spec (cfg : Cfg) (cache : List (CKey × CVal)) (hs : Nat) (hx digest receiver refund key sig : Bytes)
+    (deadline : Int) (flags : Nat) (t thr : Int) (st : List Bytes) : Except Err (List Bytes) :=
+  if (digest == hx) = true then
+    if H.shake256 receiver hs = H.shake256 key hs then
+      match SigPure.checkSig H C cfg.lim.maxItemSize cache flags sig key with
+      | .ok b => .ok (boolBytes b :: st)
+      | .error e => .error (.user e)
+    else .error (.user .see)
+  else if C16.tsAccept t cfg.now thr (intToBytes deadline) = false then .error (.user .see)
+  else if H.shake256 refund hs = H.shake256 key hs then
+    match SigPure.checkSig H C cfg.lim.maxItemSize cache flags sig key with
+    | .ok b => .ok (boolBytes b :: st)
+    | .error e => .error (.user e)
+  else .error (.user .see)
+
+def claim2 (hs : Nat) (receiver : Bytes) : Bytes := DUP ++ (SHAKE256 hs ++ pushB (H.shake256 receiver hs))
+def refund2 (hs : Nat) (refund : Bytes) (deadline : Int) : Bytes :=
+  pushB (intToBytes deadline) ++ (opc CTSV ++ (DUP ++ (SHAKE256 hs ++ pushB (H.shake256 refund hs))))
+
+def htlc2Tail (hs : Nat) (digest receiver refund : Bytes) (deadline : Int) (flags : Nat) : Bytes :=
+  pushB digest ++ (EQUAL ++ (ifElse (claim2 H hs receiver) (refund2 H hs refund deadline) ++ (EQUAL_VERIFY ++ CHECK_SIG flags)))
+
+theorem htlc2Lock_bytes (hashOp digest receiver refund : Bytes) (hs : Nat) (deadline : Int) (flags : Nat) :
+    htlc2Lock H hashOp digest receiver refund hs deadline flags = hashOp ++ htlc2Tail H hs digest receiver refund deadline flags := by
+  have hpi : Tools.pushInt deadline = pushB (intToBytes deadline) := rfl
+  simp only [htlc2Lock, htlc2Tail, claim2, refund2, hpi, List.append_assoc]
+
+set_option maxHeartbeats 3200000 in
+/-- the second-layout lock after its hash instruction, run from a stack `hx :: key :: sig :: st` -/
+theorem htlc2Tail_run (cfg : Cfg) (hno : cfg.sigExts = []) (hs : Nat) (hhs : hs < 256) (hhs0 : 0 < hs) (hhs1 : hs ≤ 64)
+    (hH : ∀ x, (H.shake256 x hs).length = hs)
+    (hx digest receiver refund key sig : Bytes) (deadline : Int)
+    (flags : Nat) (st : List Bytes) (sh : Shared) (fr : Frame) (t thr : Int)
+    (hfrest : fr.rest = htlc2Tail H hs digest receiver refund deadline flags)
+    (hcap : fr.len0 < fr.cap) (hlen0 : (htlc2Tail H hs digest receiver refund deadline flags).length ≤ fr.len0)
+    (hd0 : 0 < digest.length) (hd1 : digest.length ≤ 64) (hkey : key.length ≤ 64)
+    (hdl : (intToBytes deadline).length ≤ 64) (hfl : flags < 256)
+    (hstk : sh.stack = hx :: key :: sig :: st) (hr : sh.returned = false)
+    (ht : lookupC C16.tsKey sh.cache = some (.atom (.int t))) (hthr : cfg.tsThreshold = some thr)
+    (hsz : 64 ≤ cfg.lim.maxItemSize) (hroom : st.length + 6 ≤ cfg.lim.maxItems) :
+    Ends (instrTable H C cfg) cfg.lim fr sh
+      (fun r => Res.summary r = htlc2Spec H C cfg sh.cache hs hx digest receiver refund key sig deadline flags t thr st) := by
+  have hdne : 0 < (intToBytes deadline).length := by
+    have := C10.encode_ne_nil deadline
+    cases h : intToBytes deadline with
+    | nil => exact absurd h this
+    | cons _ _ => simp
+  have hpl : ∀ v : Bytes, 0 < v.length → v.length ≤ 64 → (pushB v).length ≤ v.length + 2 := by
+    intro v h0 h1
+    unfold pushB pushBytes
+    by_cases h : v.length = 1
+    · simp [h, opc]
+    · have : 1 < v.length ∧ v.length < 256 := by omega
+      simp [h, this, opc, natToBytesBE_length]; omega
+  have hla : (claim2 H hs receiver).length ≤ 69 := by
+    have := hpl (H.shake256 receiver hs) (by rw [hH]; omega) (by rw [hH]; omega)
+    rw [hH] at this
+    simp [claim2, DUP, SHAKE256, opc]; omega
+  have hlr : (refund2 H hs refund deadline).length ≤ 136 := by
+    have h1 := hpl (H.shake256 refund hs) (by rw [hH]; omega) (by rw [hH]; omega)
+    have h2 := hpl (intToBytes deadline) hdne hdl
+    rw [hH] at h1
+    simp [refund2, DUP, SHAKE256, opc]; omega
+  have htl : (htlc2Tail H hs digest receiver refund deadline flags).length ≥ (claim2 H hs receiver).length + (refund2 H hs refund deadline).length + 1 := by
+    simp [htlc2Tail, ifElse, opc]; omega
+  have hbl_a : (claim2 H hs receiver).length < fr.len0 := by omega
+  have hbl_b : (refund2 H hs refund deadline).length < fr.len0 := by omega
+  rw [show fr = { fr with rest := htlc2Tail H hs digest receiver refund deadline flags } by cases fr; simp_all]
+  unfold htlc2Tail
+  refine Ends.step (fun r h => run_pushB H C cfg _ sh digest _ r hd0 (by omega) rfl hcap hr (by omega) (by rw [hstk]; simp; omega) h) ?_
+  dsimp only
+  refine Ends.step (fun r h => run_equal H C cfg _ _ _ digest hx (key :: sig :: st) r rfl hcap hr (by rw [hstk]) (by omega) (by simp; omega) h) ?_
+  dsimp only
+  unfold htlc2Spec
+  -- the tail shared by both arms: [target, shake key, key, sig] -> EQUAL_VERIFY -> CHECK_SIG
+  have hfinish : ∀ (target : Bytes) (sh2 : Shared), target.length = hs → sh2.stack = target :: H.shake256 key hs :: key :: sig :: st →
+      sh2.returned = false → sh2.cache = sh.cache →
+      Ends (instrTable H C cfg) cfg.lim { fr with rest := EQUAL_VERIFY ++ CHECK_SIG flags } sh2
+        (fun r => Res.summary r = (if target = H.shake256 key hs then
+            (match SigPure.checkSig H C cfg.lim.maxItemSize sh.cache flags sig key with
+             | .ok b => .ok (boolBytes b :: st)
+             | .error e => .error (.user e)) else .error (.user .see))) := by
+    intro target sh2 htg hs2 hr2 hc2
+    by_cases heq : target = H.shake256 key hs
+    · rw [if_pos heq]
+      refine Ends.step (fun r h => run_equal_verify_ok H C cfg _ sh2 _ target (H.shake256 key hs) (key :: sig :: st) r rfl hcap hr2 hs2 heq (by omega) (by simp; omega) h) ?_
+      dsimp only
+      refine ⟨_, run_checksig_last H C cfg hno _ _ flags key sig st rfl hfl hcap hr2 rfl (by omega) (by omega), ?_⟩
+      dsimp only
+      rw [hc2]
+      cases SigPure.checkSig H C cfg.lim.maxItemSize sh.cache flags sig key <;> rfl
+    · rw [if_neg heq]
+      exact ⟨_, run_equal_verify_fail H C cfg _ sh2 _ target (H.shake256 key hs) (key :: sig :: st) rfl hcap hr2 hs2 heq (by omega) (by simp; omega), rfl⟩
+  by_cases hsel : (digest == hx) = true
+  · rw [if_pos hsel]
+    refine Ends.step (fun r h => run_ifelse_ok H C cfg _ _ _ _ _ (claim2 H hs receiver) (refund2 H hs refund deadline)
+        (boolBytes (digest == hx)) (key :: sig :: st) r rfl (by omega) (by omega) hcap hr rfl
+        (by
+          rw [hsel, show truthy (boolBytes true) = true by decide, if_pos rfl]
+          refine run_dup H C cfg _ _ (SHAKE256 hs ++ pushB (H.shake256 receiver hs)) key (sig :: st) _ (by simp [inlineFrame, claim2])
+            (by simpa [inlineFrame] using hbl_a) (by simp [copyDict, hr]) (by simp [copyDict]) (by omega) (by simp; omega) ?_
+          dsimp only
+          refine run_shake256 H C cfg _ _ (pushB (H.shake256 receiver hs)) hs key (key :: sig :: st) _ rfl hhs
+            (by simpa [inlineFrame] using hbl_a) (by simp [copyDict, hr]) rfl (by rw [hH]; omega) (by simp; omega) ?_
+          dsimp only
+          exact run_pushB H C cfg _ _ (H.shake256 receiver hs) [] _ (by rw [hH]; omega) (by rw [hH]; omega) (by simp)
+            (by simpa [inlineFrame] using hbl_a) (by simp [copyDict, hr]) (by rw [hH]; omega) (by simp; omega) (TSteps.nil rfl))
+        (by simp [copyDict, hr]) h) ?_
+    dsimp only
+    exact hfinish (H.shake256 receiver hs) _ (hH _) (by simp [copyDict]) (by simp [copyDict, hr]) (by simp [copyDict])
+  · have hsel' : (digest == hx) = false := by simpa using hsel
+    rw [if_neg hsel]
+    by_cases hacc : C16.tsAccept t cfg.now thr (intToBytes deadline) = true
+    · have hacc' : ¬ (C16.tsAccept t cfg.now thr (intToBytes deadline) = false) := by simp [hacc]
+      rw [if_neg hacc']
+      refine Ends.step (fun r h => run_ifelse_ok H C cfg _ _ _ _ _ (claim2 H hs receiver) (refund2 H hs refund deadline)
+          (boolBytes (digest == hx)) (key :: sig :: st) r rfl (by omega) (by omega) hcap hr rfl
+          (by
+            rw [hsel', show truthy (boolBytes false) = false by decide]
+            simp only [Bool.false_eq_true, ↓reduceIte]
+            refine run_pushB H C cfg _ _ (intToBytes deadline) (opc CTSV ++ (DUP ++ (SHAKE256 hs ++ pushB (H.shake256 refund hs)))) _ hdne (by omega)
+              (by simp [inlineFrame, refund2]) (by simpa [inlineFrame] using hbl_b) (by simp [copyDict, hr]) (by omega) (by simp [copyDict]; omega) ?_
+            try dsimp only
+            refine run_ctsv_ok H C cfg _ _ (DUP ++ (SHAKE256 hs ++ pushB (H.shake256 refund hs))) (intToBytes deadline) (key :: sig :: st) t thr _ rfl
+              (by simpa [inlineFrame] using hbl_b) (by simp [copyDict, hr]) (by simp [copyDict]) (C10.encode_ne_nil deadline)
+              (by simpa [copyDict] using ht) hthr (by omega) (by simp; omega) hacc ?_
+            dsimp only
+            refine run_dup H C cfg _ _ (SHAKE256 hs ++ pushB (H.shake256 refund hs)) key (sig :: st) _ rfl
+              (by simpa [inlineFrame] using hbl_b) (by simp [copyDict, hr]) rfl (by omega) (by simp; omega) ?_
+            dsimp only
+            refine run_shake256 H C cfg _ _ (pushB (H.shake256 refund hs)) hs key (key :: sig :: st) _ rfl hhs
+              (by simpa [inlineFrame] using hbl_b) (by simp [copyDict, hr]) rfl (by rw [hH]; omega) (by simp; omega) ?_
+            dsimp only
+            exact run_pushB H C cfg _ _ (H.shake256 refund hs) [] _ (by rw [hH]; omega) (by rw [hH]; omega) (by simp)
+              (by simpa [inlineFrame] using hbl_b) (by simp [copyDict, hr]) (by rw [hH]; omega) (by simp; omega) (TSteps.nil rfl))
+          (by simp [copyDict, hr]) h) ?_
+      dsimp only
+      exact hfinish (H.shake256 refund hs) _ (hH _) (by simp [copyDict]) (by simp [copyDict, hr]) (by simp [copyDict])
+    · have hacc' : C16.tsAccept t cfg.now thr (intToBytes deadline) = false := by simpa using hacc
+      rw [if_pos hacc']
+      refine ⟨_, run_ifelse_err H C cfg _ _ _ _ (claim2 H hs receiver) (refund2 H hs refund deadline)
+          (boolBytes (digest == hx)) (key :: sig :: st) (.user .see) rfl (by omega) (by omega) hcap hr rfl (by decide)
+          (by
+            rw [hsel', show truthy (boolBytes false) = false by decide]
+            simp only [Bool.false_eq_true, ↓reduceIte]
+            refine run_pushB H C cfg _ _ (intToBytes deadline) (opc CTSV ++ (DUP ++ (SHAKE256 hs ++ pushB (H.shake256 refund hs)))) _ hdne (by omega)
+              (by simp [inlineFrame, refund2]) (by simpa [inlineFrame] using hbl_b) (by simp [copyDict, hr]) (by omega) (by simp [copyDict]; omega) ?_
+            try dsimp only
+            exact run_ctsv_fail H C cfg _ _ (DUP ++ (SHAKE256 hs ++ pushB (H.shake256 refund hs))) (intToBytes deadline) (key :: sig :: st) t thr rfl
+              (by simpa [inlineFrame] using hbl_b) (by simp [copyDict, hr]) (by simp [copyDict]) (C10.encode_ne_nil deadline)
+              (by simpa [copyDict] using ht) hthr (by omega) (by simp; omega) hacc'), ?_⟩
+      rfl
+
+
+/-- **C15, SHA-256 HTLC, second layout: exact outcome.** -/
+theorem htlc2Sha256Lock_run (cfg : Cfg) (hno : cfg.sigExts = []) (hH : ∀ x, (H.sha256 x).length = 32)
+    (hs : Nat) (hhs : hs < 256) (hhs0 : 0 < hs) (hhs1 : hs ≤ 64) (hHs : ∀ x, (H.shake256 x hs).length = hs)
+    (x digest receiver refund key sig : Bytes) (deadline : Int) (flags : Nat) (st : List Bytes) (sh : Shared) (count : Nat) (t thr : Int)
+    (hd0 : 0 < digest.length) (hd1 : digest.length ≤ 64) (hkey : key.length ≤ 64)
+    (hdl0 : 0 ≤ deadline) (hdl1 : deadline < 2 ^ 62) (hfl : flags < 256)
+    (hstk : sh.stack = x :: key :: sig :: st) (hr : sh.returned = false)
+    (ht : lookupC C16.tsKey sh.cache = some (.atom (.int t))) (hthr : cfg.tsThreshold = some thr)
+    (hsz : 64 ≤ cfg.lim.maxItemSize) (hroom : st.length + 6 ≤ cfg.lim.maxItems) :
+    Ends (instrTable H C cfg) cfg.lim (topFrame (htlc2Lock H SHA256 digest receiver refund hs deadline flags) count) sh
+      (fun r => Res.summary r = htlc2Spec H C cfg sh.cache hs (H.sha256 x) digest receiver refund key sig deadline flags t thr st) := by
+  rw [htlc2Lock_bytes]
+  unfold topFrame
+  refine Ends.step (fun r h => run_sha256 H C cfg _ sh _ x (key :: sig :: st) r rfl (by simp) hr hstk (by rw [hH]; omega) (by simp; omega) h) ?_
+  dsimp only
+  exact htlc2Tail_run H C cfg hno hs hhs hhs0 hhs1 hHs (H.sha256 x) digest receiver refund key sig deadline flags st _ _ t thr rfl (by simp)
+    (by simp [SHA256, opc]) hd0 hd1 hkey (deadline_len deadline hdl0 hdl1) hfl rfl hr ht hthr hsz hroom
+
+/-- **C15, SHAKE-256 HTLC, second layout: exact outcome** (the digest size is also the key-hash size). -/
+theorem htlc2Shake256Lock_run (cfg : Cfg) (hno : cfg.sigExts = [])
+    (hs : Nat) (hhs : hs < 256) (hhs0 : 0 < hs) (hhs1 : hs ≤ 64) (hHs : ∀ x, (H.shake256 x hs).length = hs)
+    (x digest receiver refund key sig : Bytes) (deadline : Int) (flags : Nat) (st : List Bytes) (sh : Shared) (count : Nat) (t thr : Int)
+    (hd0 : 0 < digest.length) (hd1 : digest.length ≤ 64) (hkey : key.length ≤ 64)
+    (hdl0 : 0 ≤ deadline) (hdl1 : deadline < 2 ^ 62) (hfl : flags < 256)
+    (hstk : sh.stack = x :: key :: sig :: st) (hr : sh.returned = false)
+    (ht : lookupC C16.tsKey sh.cache = some (.atom (.int t))) (hthr : cfg.tsThreshold = some thr)
+    (hsz : 64 ≤ cfg.lim.maxItemSize) (hroom : st.length + 6 ≤ cfg.lim.maxItems) :
+    Ends (instrTable H C cfg) cfg.lim (topFrame (htlc2Lock H (SHAKE256 hs) digest receiver refund hs deadline flags) count) sh
+      (fun r => Res.summary r = htlc2Spec H C cfg sh.cache hs (H.shake256 x hs) digest receiver refund key sig deadline flags t thr st) := by
+  rw [htlc2Lock_bytes]
+  unfold topFrame
+  refine Ends.step (fun r h => run_shake256 H C cfg _ sh _ hs x (key :: sig :: st) r rfl hhs (by simp) hr hstk (by rw [hHs]; omega) (by simp; omega) h) ?_
+  dsimp only
+  exact htlc2Tail_run H C cfg hno hs hhs hhs0 hhs1 hHs (H.shake256 x hs) digest receiver refund key sig deadline flags st _ _ t thr rfl (by simp)
+    (by simp [SHAKE256, opc]; omega) hd0 hd1 hkey (deadline_len deadline hdl0 hdl1) hfl rfl hr ht hthr hsz hroom
+
+/-- **second layout: claim and refund paths are exact.** The verdict `[ff]` exactly when the item
+    hashes to the digest, the supplied key hashes to the committed receiver-key hash and the
+    signature passes C02 under it; or the item does not hash to the digest, `t ≥ deadline` within
+    the clock slack, the supplied key hashes to the committed refund-key hash and the signature
+    passes C02 under it. -/
+theorem htlc2Spec_accepts_iff (cfg : Cfg) (cache : List (CKey × CVal)) (hs : Nat) (hx digest receiver refund key sig : Bytes)
+    (deadline : Int) (flags : Nat) (t thr : Int) (hdl0 : 0 ≤ deadline) :
+    htlc2Spec H C cfg cache hs hx digest receiver refund key sig deadline flags t thr [] = .ok [[0xff]] ↔
+      ((digest = hx ∧ H.shake256 receiver hs = H.shake256 key hs ∧
+          SigPure.checkSig H C cfg.lim.maxItemSize cache flags sig key = .ok true) ∨
+       (digest ≠ hx ∧ deadline ≤ t ∧ (thr ≤ 0 ∨ t - cfg.now < thr) ∧ H.shake256 refund hs = H.shake256 key hs ∧
+          SigPure.checkSig H C cfg.lim.maxItemSize cache flags sig key = .ok true)) := by
+  unfold htlc2Spec
+  rw [refund_time_condition t cfg.now thr deadline hdl0]
+  have hcs : ((match SigPure.checkSig H C cfg.lim.maxItemSize cache flags sig key with
+               | .ok b => (Except.ok [boolBytes b] : Except Err (List Bytes))
+               | .error e => .error (.user e)) = .ok [[0xff]]) ↔
+             SigPure.checkSig H C cfg.lim.maxItemSize cache flags sig key = .ok true := by
+    cases SigPure.checkSig H C cfg.lim.maxItemSize cache flags sig key with
+    | error e => simp
+    | ok b => cases b <;> simp [boolBytes]
+  by_cases heq : digest = hx
+  · subst heq
+    simp only [beq_self_eq_true, ↓reduceIte, true_and, ne_eq, not_true_eq_false, false_and, or_false]
+    by_cases hk : H.shake256 receiver hs = H.shake256 key hs
+    · simp only [hk, ↓reduceIte, true_and]; exact hcs
+    · simp only [hk, ↓reduceIte, false_and]
+      constructor
+      · intro h; cases h
+      · intro h; exact h.elim
+  · have hb : (digest == hx) = false := by simpa using heq
+    simp only [hb, Bool.false_eq_true, ↓reduceIte, heq, false_and, false_or, ne_eq, not_false_eq_true, true_and]
+    by_cases hw : deadline ≤ t ∧ (thr ≤ 0 ∨ t - cfg.now < thr)
+    · simp only [hw, decide_true, Bool.true_eq_false, ↓reduceIte, and_self, true_and]
+      by_cases hk : H.shake256 refund hs = H.shake256 key hs
+      · simp only [hk, ↓reduceIte, true_and]; exact hcs
+      · simp only [hk, ↓reduceIte, false_and]
+        constructor
+        · intro h; cases h
+        · intro h; exact h.elim
+    · simp only [hw, decide_false, ↓reduceIte]
+      constructor
+      · intro h; cases h
+      · intro ⟨h1, h2, _⟩; exact absurd ⟨h1, h2⟩ hw
+
+
 end htlc
 
 end TV.C15
